@@ -34,7 +34,7 @@ typedef struct InfoVec {
   struct IndexInfo *gslot;       /* content of slot gs */
 } InfoVec;
 struct IndexInfo nondet_IndexInfo(void);
-#define InfoVec_resize(v, n_) do { (v)->size = (n_); (v)->gslot = (struct IndexInfo *)0; } while (0)   /* value-initialised: null pointers */
+#define InfoVec_resize(v, n_) ((v)->size = (n_), (v)->gslot = (struct IndexInfo *)0)  /* value-initialised: null pointers */
 /* any other slot: a temporary cell holding a valid pointer to an object with arbitrary content (no heap write).
  * A plain expression, not a statement expression: the temporaries must outlive the full expression. */
 #define InfoVec_at(v, i_) \
@@ -251,3 +251,102 @@ void h_IC_prepare_spins(void)
   IndexClassification_prepare(p, 1);     /* order_spins: spin-major */
   REACH("exit");
 }
+
+/* ================= lookups on a prepared object =================
+ * PREPARED(self): the state prepare() leaves behind, for the ghost triple gt / ghost key (= gt with its hash) and the
+ * ghost slot gs.  It follows from the post-conditions of prepare (proved above for ALL gt, gs) under the named
+ * hypothesis
+ *   H_label: no two different strings among (labels of the lattice, labels passed to getIndex) have the same
+ *            boost::hash value                       (IndexInfo::operator< compares hashes, not labels)
+ * Derivation (N = IndexSize, P3..P6/F1/F2 = post-conditions of prepare, slot(j) = content of slot j):
+ *   M1  gpresent <=> gt valid.   "<=": gt valid => hits == 1, p := hit_slot < N (P3,P4); P6 at gs := p: slot(p) = gt, so
+ *       its key is equivalent to the ghost key; F2 at gs := p: gpresent.   "=>": gpresent => gval < N (F1a); F1b at
+ *       gs := gval: key(slot(gval)) ~ ghost key, i.e. equal hashes, orbital, spin; H_label: equal labels; slot(gval) is a
+ *       valid triple (P5), hence gt is valid.
+ *   M4  gs < N and gpresent => (slot(gs) = gt <=> gval == gs).   "=>": F2: gval >= gs; P6: hit_slot == gs; F1b at
+ *       gs' := gval and H_label: slot(gval) = gt; P6 at gs': hit_slot == gval; so gval == gs.   "<=": F1b and H_label.
+ *   M3  gs < N => slot gs holds a live object with a valid triple whose hash field is the hash of its label (P5).
+ */
+#define OBJ_WELLFORMED (OBJ_VALID && g_obj.SiteLabelHash == STRHASH(g_obj.SiteLabel) && g_obj_pos == SITEPOS(g_obj.SiteLabel))
+#define GT_VALID_S (M->gk >= 0 && g_t_orb < SM_orb(M->gk) && g_t_spin < SM_spin(M->gk))
+#define PREPARED \
+  (__CPROVER_is_fresh(self, sizeof(*self)) && g_self == self && !VERIF_thrown && SiteMap_wf_nosums(M) && V->size == self->IndexSize && \
+   MAP->g.first.SiteLabel == M->glabel && MAP->g.first.Orbital == g_t_orb && MAP->g.first.Spin == g_t_spin && \
+   MAP->g.first.SiteLabelHash == STRHASH(M->glabel) && \
+   MAP->gpresent == GT_VALID_S &&                                                                   /* M1 */ \
+   (MAP->gpresent ==> MAP->g.second < self->IndexSize) && \
+   (V->gs < self->IndexSize ==> (V->gslot == &g_obj && OBJ_WELLFORMED)) &&                          /* M3 */ \
+   ((V->gs < self->IndexSize && MAP->gpresent) ==> (OBJ_IS_GT == (MAP->g.second == V->gs))))        /* M4 */
+#define INFO_IS(x, l, o, s) ((x).SiteLabel == (l) && (x).Orbital == (o) && (x).Spin == (s))
+
+//@function Pomerol::IndexClassification::getIndexSize() const as IndexClassification_getIndexSize
+//@end
+//@function Pomerol::IndexClassification::checkIndex(unsigned int) as IndexClassification_checkIndex
+//@contract
+__CPROVER_requires(__CPROVER_is_fresh(self, sizeof(*self)))
+__CPROVER_assigns()
+__CPROVER_ensures(__CPROVER_return_value == (in < self->IndexSize))
+//@end
+//@maythrow IndexClassification_getInfo
+//@function Pomerol::IndexClassification::getInfo(unsigned int) const as IndexClassification_getInfo
+//@contract
+__CPROVER_requires(PREPARED)
+__CPROVER_assigns(VERIF_thrown)
+/* C18: getInfo(i >= N) throws, otherwise returns the content of slot i (instance i == gs) */
+__CPROVER_ensures(VERIF_thrown == (in >= self->IndexSize))
+__CPROVER_ensures((!VERIF_thrown && in == V->gs) ==> (INFO_IS(__CPROVER_return_value, g_obj.SiteLabel, g_obj.Orbital, g_obj.Spin) && __CPROVER_return_value.SiteLabelHash == g_obj.SiteLabelHash))
+//@end
+//@function Pomerol::IndexClassification::getIndex(Pomerol::IndexClassification::IndexInfo const&) const as IndexClassification_getIndex1
+//@contract
+__CPROVER_requires(PREPARED)
+/* the argument is (a key equal to) the ghost triple, built by IndexInfo's constructor */
+__CPROVER_requires(__CPROVER_is_fresh(in, sizeof(*in)) && INFO_IS(*in, M->glabel, g_t_orb, g_t_spin) && in->SiteLabelHash == STRHASH(in->SiteLabel))
+__CPROVER_assigns(self->InfoToIndices.other)
+/* C18: the index of a valid triple (< N), IndexSize for an unknown triple */
+__CPROVER_ensures(__CPROVER_return_value == (GT_VALID_S ? MAP->g.second : self->IndexSize))
+__CPROVER_ensures(GT_VALID_S == (__CPROVER_return_value < self->IndexSize))
+//@end
+//@function Pomerol::IndexClassification::getIndex(std::__cxx11::basic_string<char, std::char_traits<char>, std::allocator<char> > const&, unsigned short const&, unsigned short const&) const as IndexClassification_getIndex3
+//@contract
+__CPROVER_requires(PREPARED)
+__CPROVER_requires(Site == M->glabel && Orbital == g_t_orb && Spin == g_t_spin)
+__CPROVER_assigns(self->InfoToIndices.other)
+__CPROVER_ensures(__CPROVER_return_value == (GT_VALID_S ? MAP->g.second : self->IndexSize))
+__CPROVER_ensures(GT_VALID_S == (__CPROVER_return_value < self->IndexSize))
+//@end
+
+/* round trips (C18: forward and inverse lookups are mutual inverses): two-line clients of the extracted lookups */
+unsigned int IC_roundtrip_index(struct IndexClassification *self, unsigned int i)
+__CPROVER_requires(PREPARED)
+/* i = the ghost slot, the ghost triple = the triple stored in that slot */
+__CPROVER_requires(i == V->gs && i < self->IndexSize && OBJ_IS_GT)
+__CPROVER_assigns(VERIF_thrown, self->InfoToIndices.other)
+__CPROVER_ensures(!VERIF_thrown && __CPROVER_return_value == i)              /* getIndex(getInfo(i)) == i */
+{
+  struct IndexInfo info = IndexClassification_getInfo(self, i);
+  if (VERIF_thrown) return 0;
+  return IndexClassification_getIndex1(self, &info);
+}
+struct IndexInfo IC_roundtrip_info(struct IndexClassification *self, label_t l, unsigned short o, unsigned short s)
+__CPROVER_requires(PREPARED)
+/* (l,o,s) = the ghost triple, valid; the ghost slot = its index */
+__CPROVER_requires(l == M->glabel && o == g_t_orb && s == g_t_spin && GT_VALID_S && V->gs == MAP->g.second)
+__CPROVER_assigns(VERIF_thrown, self->InfoToIndices.other)
+__CPROVER_ensures(!VERIF_thrown && INFO_IS(__CPROVER_return_value, l, o, s))  /* getInfo(getIndex(t)) == t */
+{
+  unsigned int idx = IndexClassification_getIndex3(self, l, o, s);
+  return IndexClassification_getInfo(self, idx);
+}
+
+//@harness h_IC_checkIndex enforce=IndexClassification_checkIndex props=C18 min_obl=10 reach=1 objbits=8
+void h_IC_checkIndex(void) { struct IndexClassification *p; unsigned int i; IndexClassification_checkIndex(p, i); REACH("exit"); }
+//@harness h_IC_getInfo enforce=IndexClassification_getInfo props=C18,C17 min_obl=50 reach=1 objbits=8
+void h_IC_getInfo(void) { struct IndexClassification *p; unsigned int i; IndexClassification_getInfo(p, i); REACH("exit"); }
+//@harness h_IC_getIndex1 enforce=IndexClassification_getIndex1 props=C18 min_obl=50 reach=1 objbits=8
+void h_IC_getIndex1(void) { struct IndexClassification *p; struct IndexInfo *k; IndexClassification_getIndex1(p, k); REACH("exit"); }
+//@harness h_IC_getIndex3 enforce=IndexClassification_getIndex3 props=C18 min_obl=50 reach=1 objbits=8
+void h_IC_getIndex3(void) { struct IndexClassification *p; label_t l; unsigned short o, s; IndexClassification_getIndex3(p, l, o, s); REACH("exit"); }
+//@harness h_IC_roundtrip_index enforce=IC_roundtrip_index props=C18 min_obl=50 reach=1 objbits=8
+void h_IC_roundtrip_index(void) { struct IndexClassification *p; unsigned int i; IC_roundtrip_index(p, i); REACH("exit"); }
+//@harness h_IC_roundtrip_info enforce=IC_roundtrip_info props=C18 min_obl=50 reach=1 objbits=8
+void h_IC_roundtrip_info(void) { struct IndexClassification *p; label_t l; unsigned short o, s; IC_roundtrip_info(p, l, o, s); REACH("exit"); }
